@@ -838,6 +838,305 @@ def same_text_two_readings(ctx, root):
                           {"script": sc, "brush": [b["rc"], b["out"]], "bash": [o["rc"], o["out"]], "brush_stderr": b["err"][-200:]})
 
 
+# ------------------------------------------------------------------------------------------------
+# IFS history: the fields of a word depend on IFS only through its CURRENT value (Props/C05.lean
+# fields_depend_on_current_ifs_only: the model's expansion takes IFS as an argument and nothing else remembers it).
+# The family below is where that statement meets the code: sequences of ways of setting IFS, with probes between
+# them, brush against bash on identical text; the model is asked with the IFS in force at every probe.
+# (Found missing by seed C05-5: a memo of IFS in ShellEnvironment not dropped by one of the assignment paths.)
+
+HIST_IFS = [("dflt", " \t\n"), ("space", " "), ("newline", "\n"), ("empty", ""), ("colon", ":"), ("tab", "\t")]
+HIST_ARGS = ["b c", ""]
+HIST_WAYS = ["assign", "declare", "typeset", "export", "unset", "fn-assign", "fn-local", "fn-local-again",
+             "fn-local-declare", "fn-declare-g", "prefix-read", "prefix-func", "subshell", "readonly"]
+HIST_WAYS_INFN = ["assign", "declare", "typeset", "local", "fn-assign", "fn-local", "fn-local-again", "fn-local-declare",
+                  "fn-declare-g", "prefix-read", "prefix-func", "subshell"]
+HIST_VARIANTS = ["all", "init", "none"]     # probes everywhere / only before the first setting / only at the end
+
+
+def hist_words():
+    return [P("${t}", ["Vt"], {"var"}), P("${c}", ["Vc"], {"var"}), P('"$*"', ["D(", "X*", "D)"], {"star", "dq"}),
+            P('"${k[*]}"', ["D(", "A*k", "D)"], {"star", "dq"}), P("$*", ["X*"], {"star"}),
+            P("${c}${t}", ["Vc", "Vt"], {"var"})]
+
+
+class Hist:
+    """one sequence rendered as script text; obs[k] = (probe kind, word index or None, IFS in force) for marker k"""
+    def __init__(self, nonce, words, k0=0, tag=""):
+        self.nonce, self.words, self.L, self.obs, self.k0, self.tag, self.nf = nonce, words, [], [], k0, tag, 0
+
+    def mark(self, kind, widx, ifs):
+        self.obs.append((kind, widx, ifs))
+        return "'=MARK-%s-%d='" % (self.nonce, self.k0 + len(self.obs) - 1)
+
+    def probe(self, ifs):
+        sa = _setargs(HIST_ARGS)
+        for j, w in enumerate(self.words):
+            if j == len(self.words) - 1:
+                self.L.append("hn=(); for hw in %s; do hn+=(\"$hw\"); done; printf '%%s\\0' %s \"${#hn[@]}\" \"${hn[@]}\""
+                              % (w.text, self.mark("for", j, ifs)))
+            else:
+                self.L.append("%s; set -- %s; printf '%%s\\0' %s \"$#\" \"$@\"" % (sa, w.text, self.mark("set", j, ifs)))
+        self.L.append("read -r hx hy <<<\"$hr\"; printf '%%s\\0' %s 2 \"$hx\" \"$hy\"" % self.mark("read", None, ifs))
+
+    def fn(self, body_fn, prefix=""):
+        self.nf += 1
+        name = "hf%s_%d" % (self.tag, self.nf)
+        self.L.append(name + "() {")
+        body_fn()
+        self.L.append(":")
+        self.L.append("}")
+        self.L.append("%s%s%s" % (prefix, name, "".join(" " + sq(a) for a in HIST_ARGS)))
+
+
+def hist_other(v, cur):
+    for _, x in HIST_IFS:
+        if x != v and x != cur:
+            return x
+
+
+def hist_render(h, initial, steps, variant, infn):
+    """steps: [(way, value)]. Tracks the IFS in force (g: global value, l: the enclosing function's local or None)."""
+    st = {"g": initial, "l": None}
+
+    def cur():
+        return st["l"] if st["l"] is not None else st["g"]
+
+    def setvis(v):
+        if st["l"] is not None:
+            st["l"] = v
+        else:
+            st["g"] = v
+
+    def body():
+        h.L.append("IFS=" + sq(initial))
+        if variant != "none":
+            h.probe(cur())
+        for i, (way, v) in enumerate(steps):
+            last = i == len(steps) - 1
+            pr = last or variant == "all"
+            lit = sq(v)
+            if way in ("assign", "export", "readonly"):
+                h.L.append(("" if way == "assign" else way + " ") + "IFS=" + lit)
+                setvis(v)
+            elif way in ("declare", "typeset", "local"):
+                h.L.append("%s IFS=%s" % (way, lit))
+                if infn:
+                    st["l"] = v
+                else:
+                    st["g"] = v
+            elif way == "unset":
+                h.L.append("unset IFS")
+                setvis("u")
+            elif way == "fn-assign":
+                def b():
+                    h.L.append("IFS=" + lit)
+                    setvis(v)
+                    if pr:
+                        h.probe(cur())
+                h.fn(b)
+            elif way == "fn-declare-g":
+                def b():
+                    h.L.append("declare -g IFS=" + lit)
+                    st["g"] = v
+                    if pr:
+                        h.probe(cur())
+                h.fn(b)
+            elif way == "fn-local":
+                def b():
+                    h.L.append("local IFS=" + lit)
+                    if pr:
+                        h.probe(v)
+                h.fn(b)
+            elif way in ("fn-local-again", "fn-local-declare"):
+                v0 = hist_other(v, cur())
+
+                def b():
+                    h.L.append("local IFS=" + sq(v0))
+                    if pr:
+                        h.probe(v0)
+                    h.L.append("%s IFS=%s" % ("local" if way == "fn-local-again" else "declare", lit))
+                    if pr:
+                        h.probe(v)
+                h.fn(b)
+            elif way == "prefix-read":
+                h.L.append("IFS=%s read -r hx hy <<<\"$hr\"; printf '%%s\\0' %s 2 \"$hx\" \"$hy\""
+                           % (lit, h.mark("read", None, v)))
+            elif way == "prefix-func":
+                def b():
+                    if pr:
+                        h.probe(v)
+                h.fn(b, prefix="IFS=%s " % lit)
+            elif way == "subshell":
+                h.L.append("(")
+                h.L.append("IFS=" + lit)
+                if pr:
+                    h.probe(v)
+                h.L.append(")")
+            else:
+                raise ValueError(way)
+            if pr:
+                h.probe(cur())
+
+    if infn:
+        h.fn(body)
+        st["l"] = None
+        h.probe(cur())
+    else:
+        body()
+
+
+def hist_prelude():
+    L = ["shopt -u extglob nullglob failglob dotglob 2>/dev/null", "HOME=" + sq(HOME)]
+    for n, v in VARS.items():
+        L.append("%s=%s" % (n, sq(v)))
+    for n in UNSET:
+        L.append("unset " + n)
+    for n, els in ARR.items():
+        L.append("%s=(%s)" % (n, " ".join(sq(x) for x in els)))
+    L.append("hr=" + sq("a:b c\td e"))
+    return L
+
+
+def hist_script(seqs, nonce, words, subshells):
+    """seqs: [(initial, steps, variant, infn)] -> (script, obs of all sequences, obs index ranges)"""
+    L = hist_prelude()
+    obs, ranges = [], []
+    for si, (initial, steps, variant, infn) in enumerate(seqs):
+        h = Hist(nonce, words, k0=len(obs), tag=str(si))
+        hist_render(h, initial, steps, variant, infn)
+        ranges.append((len(obs), len(obs) + len(h.obs)))
+        obs += h.obs
+        L += (["("] + h.L + [")"]) if subshells else h.L
+    return "\n".join(L) + "\n", obs, ranges
+
+
+def hist_sequences(ctx):
+    rng = ctx.rng
+    vals = [v for _, v in HIST_IFS]
+    if ctx.quick:
+        pairs = [(" \t\n", " "), (" ", " \t\n"), (" \t\n", "\n"), ("\n", ":"), (":", " \t\n"), (" \t\n", ""), ("", " "),
+                 (" ", ":"), ("\t", "\n")]
+    else:
+        pairs = [(a, b) for a in vals for b in vals if a != b]
+    seqs = []
+    # exhaustive (seed independent): first way x second way x IFS pair x probe variant, at top level; the initial
+    # IFS is the second value of the pair (so the first step already changes it)
+    for w1 in HIST_WAYS:
+        if w1 == "readonly":
+            continue
+        for w2 in HIST_WAYS:
+            for (a, b) in pairs:
+                for variant in (HIST_VARIANTS if not ctx.quick else ["all", ["init", "none"][(len(seqs) // 2) % 2]]):
+                    seqs.append((b, [(w1, a), (w2, b)], variant, False))
+    # the same inside a function (declare / typeset / local make a local binding there)
+    for w1 in HIST_WAYS_INFN:
+        for w2 in HIST_WAYS_INFN:
+            for (a, b) in (pairs if not ctx.quick else pairs[:4]):
+                seqs.append((b, [(w1, a), (w2, b)], "all", True))
+    nexh = len(seqs)
+    # seeded: longer sequences
+    for _ in range(ctx.size(600, 12000)):
+        infn = rng.random() < 0.3
+        ways = HIST_WAYS_INFN if infn else HIST_WAYS
+        n = rng.randint(3, 4)
+        steps = []
+        for i in range(n):
+            w = rng.choice(ways)
+            while w == "readonly" and i != n - 1:
+                w = rng.choice(ways)
+            steps.append((w, rng.choice(vals)))
+        seqs.append((rng.choice(vals), steps, rng.choice(HIST_VARIANTS), infn))
+    return seqs, nexh
+
+
+def hist_describe(seq):
+    initial, steps, variant, infn = seq
+    return {"initial_ifs": initial, "steps": [[w, v] for w, v in steps], "probes": variant, "inside_function": infn}
+
+
+def ifs_history(ctx, root):
+    words = hist_words()
+    seqs, nexh = hist_sequences(ctx)
+    # the model's lists for every (probe word, IFS in force)
+    keys = [(j, ifs) for j in range(len(words)) for ifs in [v for _, v in HIST_IFS] + ["u"]]
+    mouts = lib.run_drv_parallel(["C04 " + make_line(root, ifs, HIST_ARGS, words[j]) for (j, ifs) in keys], workers=WORKERS)
+    model = {}
+    for key, m in zip(keys, mouts):
+        parts = m.split(" %| ")
+        impl, unmod = c04.parse_res(parts[0])
+        spec, _ = c04.parse_res(parts[1]) if len(parts) > 1 else ("?", False)
+        dflags = parts[2][1:] if len(parts) > 2 and parts[2].startswith("D") else "?"
+        model[key] = (impl, spec, dflags, unmod)
+    per = 8
+    batches = [seqs[i:i + per] for i in range(0, len(seqs), per)]
+
+    def one(batch):
+        nonce = "%08x" % random.getrandbits(32)
+        sc, obs, ranges = hist_script(batch, nonce, words, True)
+        ob = c04.split_records(run_script("brush", sc, root), nonce, len(obs))
+        oo = c04.split_records(run_script("bash", sc, root), nonce, len(obs))
+        return obs, ranges, ob, oo
+    res = lib.pmap(one, batches, workers=WORKERS)
+    nv = 0
+    for batch, (obs, ranges, ob, oo) in zip(batches, res):
+        for seq, (lo, hi) in zip(batch, ranges):
+            ways = "+".join(w for w, _ in seq[1])
+            bad = None
+            for k in range(lo, hi):
+                kind, widx, ifs = obs[k]
+                ctx.count(("hist", repr(seq), k - lo), nontrivial=True,
+                          bucket="ifs-history:%s" % kind)
+                ctx.impl_validated += 1
+                b, o = _as_list(ob[k]), _as_list(oo[k])
+                if o is None:
+                    ctx.bucket("ifs-history:bash-no-result")
+                if widx is None:
+                    if b != o and bad is None:
+                        bad = (k - lo, None, "after the IFS history, `read -r x y` under IFS=%r differs from bash's: brush %r, bash %r" % (ifs, b, o), "property")
+                    continue
+                impl, spec, dflags, unmod = model[(widx, ifs)]
+                w = words[widx]
+                if o is not None and spec != o and not unmod:
+                    ctx.oracle_mismatch += 1
+                    if len(ctx.notes) < 8:
+                        ctx.notes.append("spec != bash (IFS history): %s IFS=%r spec=%r bash=%r" % (w.text, ifs, spec, o))
+                if b == o and (b == impl or unmod):
+                    continue
+                if b != o:
+                    cl = clause_of(w, ifs, HIST_ARGS, b, o, impl, spec, dflags) if b == impl else None
+                    what = "after the IFS history, %s under the IFS in force (%r) differs from bash's: brush %r, bash %r (model for that IFS: %r)" % (w.text, ifs, b, o, impl)
+                    if cl:
+                        ctx.known_or_violation(cl, what, dict(hist_describe(seq), history=True, word=w.text, ifs=ifs,
+                                                              brush=b, bash=o, impl=impl, spec=spec,
+                                                              script=hist_script([seq], "r", words, False)[0]))
+                    elif bad is None:
+                        bad = (k - lo, w.text, what, "property")
+                elif bad is None:
+                    bad = (k - lo, w.text, "after the IFS history, brush's list for %s is not the model's for the IFS in force (%r): brush %r, model %r" % (w.text, ifs, b, impl), "correspondence")
+            ctx.bucket("ifs-history-seq:" + ("in-function" if seq[3] else "top-level") + ":" + seq[2])
+            if bad is not None and nv < 25:
+                nv += 1
+                single = hist_script([seq], "r", words, False)[0]
+                ctx.violation(bad[2], dict(hist_describe(seq), history=True, marker=bad[0], word=bad[1], ways=ways,
+                                           script=single), kind=bad[3])
+    return len(seqs), nexh
+
+
+def hist_replay(c, root):
+    sc = c["script"]
+    n = sc.count("=MARK-r-")
+    ob = c04.split_records(run_script("brush", sc, root), "r", n)
+    oo = c04.split_records(run_script("bash", sc, root), "r", n)
+    print(sc)
+    bad = 0
+    for k in range(n):
+        flag = "" if ob[k] == oo[k] else "   <-- differs"
+        print("marker %-3d brush %r\n           bash  %r%s" % (k, ob[k], oo[k], flag))
+        bad |= ob[k] != oo[k]
+    return 1 if bad else 0
+
+
 def run(ctx):
     ok, out = lib.cargo_build([BIN])
     if not ok:
@@ -873,6 +1172,7 @@ def run(ctx):
         decide(ctx, root, cases[nsmall:], "rand")
         sweep(ctx, root, cases)
         same_text_two_readings(ctx, root)
+        nseq, nexh = ifs_history(ctx, root)
         ctx.sample({"word": cases[ncorp][0].text, "tokens": cases[ncorp][0].toks, "brush_inproc": bouts[ncorp]})
         ctx.sample({"word": cases[-1][0].text, "tokens": cases[-1][0].toks, "ifs": cases[-1][2], "args": cases[-1][3]})
     finally:
@@ -883,7 +1183,14 @@ def run(ctx):
                        "pairs of %d fixed pieces, plus seeded random words of up to %d pieces; environments with empty, "
                        "blank-padded, multi-field, glob-like values; positional lists of length 0-3; IFS in {unset, default, "
                        "space, newline, empty}; a directory with dot-files and names with spaces. non-trivial = at least 2 tokens"
-                       % (23, ctx.size(4, 6)))
+                       % (23, ctx.size(4, 6)) +
+                       ". IFS history family: %d sequences (%d exhaustive = first way x second way x IFS pair x probe "
+                       "variant, at top level and inside a function; the rest seeded, 3-4 steps) of ways of setting IFS "
+                       "(plain, declare, typeset, export, readonly, unset, in a function plain / local / local twice / local "
+                       "then declare / declare -g, prefix on read / on a function, subshell) over IFS in {default, space, "
+                       "newline, empty, ':', tab}, with probes (${t} ${c} \"$*\" \"${k[*]}\" $* as `set --`, a for list, "
+                       "`read -r x y`) before, between and after: brush against bash, and against the model for the IFS in "
+                       "force at each probe" % (nseq, nexh))
     ctx.assumptions += ["bash 5.2.15 is the oracle; the Lean reference semantics (Spec/WordExp.lean specExpandB) is validated "
                         "against it on every case (oracle_mismatch)",
                         "one directory level; command substitution output and arithmetic values supplied to the model as data",
@@ -896,6 +1203,8 @@ def replay(ctx, rp):
     root = tempfile.mkdtemp(prefix="c05-dir-")
     try:
         c04.make_dir(root, DIRNAMES)
+        if c.get("history"):
+            return hist_replay(c, root)
         if c.get("sweep"):
             w = P(c["word"], c["tokens"], c.get("feats", ()), home=c.get("home"))
             altdir = tempfile.mkdtemp(prefix="c05-alt-")
